@@ -188,6 +188,108 @@ def shaped_fields(prog: Program, ctx: ClassInfo) -> set:
     return {k for k, v in cand.items() if v and all(v)}
 
 
+# -- symbolic lengths: linear forms over N (= population_size) and opaque integer symbols ------------------------
+
+def _lin_add(a: dict, b: dict, sign: int = 1) -> dict:
+    out = dict(a)
+    for k, v in b.items():
+        out[k] = out.get(k, 0) + sign * v
+        if out[k] == 0:
+            del out[k]
+    return out
+
+
+def lin(fi: FuncInfo, e: ast.AST, depth: int = 6) -> dict:
+    """Linear form of an integer expression; anything not understood becomes one opaque symbol (its text)."""
+    if isinstance(e, ast.Constant) and isinstance(e.value, int) and not isinstance(e.value, bool):
+        return {"1": e.value} if e.value else {}
+    if dotted(e) == "self._config.population_size":
+        return {"N": 1}
+    if isinstance(e, ast.BinOp) and isinstance(e.op, (ast.Add, ast.Sub)):
+        return _lin_add(lin(fi, e.left, depth), lin(fi, e.right, depth), 1 if isinstance(e.op, ast.Add) else -1)
+    if isinstance(e, ast.Name) and depth > 0:
+        scope = fi
+        while scope is not None:
+            sites = store_sites(scope.node, e.id)
+            if sites:
+                if len(sites) == 1 and sites[0][2] == "assign":
+                    return lin(scope, sites[0][1], depth - 1)
+                break
+            if e.id in scope.params:
+                break
+            scope = scope.outer
+        return {f"`{e.id}`": 1}
+    return {f"`{norm(e, 60)}`": 1}
+
+
+def show_lin(f: dict) -> str:
+    if not f:
+        return "0"
+    parts = []
+    for k, v in sorted(f.items()):
+        term = (str(v) if k == "1" else (k if v == 1 else f"{v}*{k}"))
+        parts.append(term)
+    return " + ".join(parts).replace("+ -", "- ")
+
+
+def sym_len(fi: FuncInfo, e: ast.AST, depth: int = 6) -> Optional[dict]:
+    """Symbolic length of a list expression under the inductive hypothesis len(self._population) == N and the
+    configuration-domain assumption that slice bounds lie within the list; None when not understood."""
+    if depth <= 0:
+        return None
+    if dotted(e) == "self._population":
+        return {"N": 1}
+    if isinstance(e, ast.Name):
+        rd = reaching_def(fi.node, e, e.id)
+        if rd is not None and rd[2] == "assign":
+            return sym_len(fi, rd[1], depth - 1)
+        return None
+    if isinstance(e, ast.Call):
+        d = dotted(e.func)
+        if d in ("sort_by_cost", "sorted", "list", "tuple") and e.args:
+            return sym_len(fi, e.args[0], depth - 1)
+        if isinstance(e.func, ast.Attribute) and e.func.attr == "copy" and not e.args:
+            return sym_len(fi, e.func.value, depth - 1)
+        if d == "sort_and_trim" and len(e.args) == 2:
+            inner = sym_len(fi, e.args[0], depth - 1)
+            k = lin(fi, e.args[1])
+            return inner if inner is not None and inner == k else None
+        if d == "self._generate_agents" and len(e.args) == 1:
+            return lin(fi, e.args[0])
+        return None
+    if isinstance(e, ast.Subscript) and isinstance(e.slice, ast.Slice) and e.slice.step is None:
+        base = sym_len(fi, e.value, depth - 1)
+        if base is None:
+            return None
+        lo, hi = e.slice.lower, e.slice.upper
+        if lo is None and hi is None:
+            return base
+        if lo is None:
+            return lin(fi, hi)
+        if hi is None:
+            return _lin_add(base, lin(fi, lo), -1)
+        return _lin_add(lin(fi, hi), lin(fi, lo), -1)
+    if isinstance(e, ast.ListComp) and len(e.generators) == 1 and not e.generators[0].ifs:
+        it = e.generators[0].iter
+        if pop_iter(it) in ("direct", "enumerate"):
+            return {"N": 1}
+        if isinstance(it, ast.Call) and isinstance(it.func, ast.Name) and it.func.id == "range":
+            if len(it.args) == 1:
+                return lin(fi, it.args[0])
+            if len(it.args) == 2:
+                return _lin_add(lin(fi, it.args[1]), lin(fi, it.args[0]), -1)
+            return None
+        return sym_len(fi, it, depth - 1)
+    if isinstance(e, ast.BinOp) and isinstance(e.op, ast.Add):
+        a, b = sym_len(fi, e.left, depth - 1), sym_len(fi, e.right, depth - 1)
+        if a is None or b is None:
+            return None
+        return _lin_add(a, b)
+    if isinstance(e, (ast.List, ast.Tuple)) and not any(isinstance(x, ast.Starred) for x in e.elts):
+        return {"1": len(e.elts)} if e.elts else {}
+    return None
+
+
 def len_class(prog: Program, ctx: ClassInfo, w: PopWrite, shaped: set) -> tuple:
     """-> (class, why)   class in SAME | N | GROW | SHRINK | UNKNOWN"""
     if w.kind == "slot":
@@ -237,7 +339,12 @@ def len_class(prog: Program, ctx: ClassInfo, w: PopWrite, shaped: set) -> tuple:
         if isinstance(v, ast.Subscript) and isinstance(v.slice, ast.Slice) and dotted(v.value) == "self._population":
             return "SHRINK", "slice of the population"
         if isinstance(v, ast.BinOp) and isinstance(v.op, ast.Add):
-            return "UNKNOWN", "concatenation: size follows from arithmetic"
+            sl = sym_len(w.fi, v)
+            if sl is None:
+                return "UNKNOWN", "concatenation of lists whose lengths are not understood"
+            if sl == {"N": 1}:
+                return "N", "concatenation whose symbolic length is exactly population_size"
+            return "MISCOUNT", f"concatenation whose symbolic length is {show_lin(sl)}, not identically population_size"
         return "UNKNOWN", f"`{norm(v, 60)}`"
     return "UNKNOWN", w.kind
 
